@@ -23,7 +23,31 @@ sys.exit(1 if bad else 0)
 '''
 
 
+MIXED_REPLAY = '''
+import sys
+import onnx_ir as ir
+from onnxscript._internal import builder as B
+bad = 0
+for scalar, seq in ((0.0, [0, 1]), (1.0, [1, 1]), (-0.0, [0, -1])):
+    for order in (0, 1):
+        g = ir.Graph([], [], nodes=[], opset_imports={"": 21}, name="main")
+        gb = B.GraphBuilder(g)
+        x = gb.input("x", ir.DataType.FLOAT, [2])
+        first, second = (scalar, seq) if order == 0 else (seq, scalar)
+        a = gb.op.Add(x, first)
+        b = gb.op.Add(x, second)
+        got = b.producer().inputs[1].const_value.numpy().tolist()
+        want = [float(v) for v in second] if isinstance(second, list) else float(second)
+        if got != want:
+            print(f"Add(x, {first!r}) then Add(x, {second!r}): the second literal became the tensor {got!r} (cache hit on the first), expected {want!r}")
+            bad += 1
+sys.exit(1 if bad else 0)
+'''
+
+
 def replay(ob):
+    if "constant_cache.mixed" in ob["name"]:
+        return MIXED_REPLAY
     if "constant_cache" in ob["name"]:
         return CACHE_REPLAY
     return None
